@@ -174,6 +174,13 @@ BEHAVIOUR_PRESERVING += [
  ('bp_keccak_permute_iter_state', [('plonky2/src/hash/keccak.rs', '        for i in 0..SPONGE_WIDTH {\n            state_bytes[i * size_of::<u64>()..(i + 1) * size_of::<u64>()]\n                .copy_from_slice(&self.state[i].to_canonical_u64().to_le_bytes());\n        }', '        for (i, x) in self.state.iter().enumerate() {\n            state_bytes[i * size_of::<u64>()..(i + 1) * size_of::<u64>()]\n                .copy_from_slice(&x.to_canonical_u64().to_le_bytes());\n        }')], ['C13', 'C04'], None),
 ]
 
+BEHAVIOUR_PRESERVING += [
+ ('bp_circuit_pow_zero_shortcut', [('plonky2/src/fri/recursive_verifier.rs', '        self.assert_leading_zeros(\n            fri_pow_response,\n            config.proof_of_work_bits + (64 - F::order().bits()) as u32,\n        );', '        let min_leading_zeros = config.proof_of_work_bits + (64 - F::order().bits()) as u32;\n        if min_leading_zeros < 1 {\n            return;\n        }\n        self.assert_leading_zeros(fri_pow_response, min_leading_zeros);')], ['C06'], None),
+]
+M += [
+ ('r8_circuit_pow_one_bit_exempt', [('plonky2/src/fri/recursive_verifier.rs', '        self.assert_leading_zeros(\n            fri_pow_response,\n            config.proof_of_work_bits + (64 - F::order().bits()) as u32,\n        );', '        let min_leading_zeros = config.proof_of_work_bits + (64 - F::order().bits()) as u32;\n        if min_leading_zeros <= 1 {\n            return;\n        }\n        self.assert_leading_zeros(fri_pow_response, min_leading_zeros);')], ['C06'], 'R06.10'),
+]
+
 def run(name, subs, checks):
     args = [os.path.join(V, 'selftest', 'mutrun.py')]
     for f, o, n in subs:
